@@ -70,6 +70,7 @@ partial def annot (w : World) (cfg : Cfg) : Ty → Option Obj → Err → Sexp
             | Option.none => .list [idxSx n, .atom "?", plainTree e])
         | some _ => .list [idxSx n, .atom "?", plainTree e]
         | Option.none => .list [idxSx n, .atom "-", plainTree e]))
+  | .nt c, o, e => annot w cfg (.tupleHet (w.ntTys c)) o e
   | .map _ kt vt, some (.dict kvs), .ive es =>
       let same := tyText kt == tyText vt
       .list (.atom "ive" :: es.map (fun (n, e) => match n with
